@@ -206,20 +206,23 @@ def register2(w):
     w.fields("HTTPProtocol", iconmapping="dict[str,str]", formvals="dict[str,list[str]]")
     w.fields("RequestHandler", rfile="obj:RFile", wfile="obj:WFile", server="obj:Server")
     w.fields("GopherRequestHandler", rfile="obj:RFile", wfile="obj:WFile", server="obj:Server", client_address="tuple[str,int]", request="opaque:socket")
+    w.fields("AnyProtocol", requesthandler="obj:GopherRequestHandler", request="str")
     w.fields("FileNotFound", selector="str", comments="str", protocol="opt[obj:BaseGopherProtocol]")
-    ONLYW = {"OSError": ["raised.from_wfile", "self.wfile.written.startswith(old(self.wfile.written))"]}
+    ONLYW = {"OSError": ["raised.from_wfile"]}
     # ---- plain Gopher ---------------------------------------------------------------------------------
     w.contract(BASE + "handle", selfclass=GOPHER, globals=GROOT,
                requires=HREQ, modifies=HMOD, raises={"OSError": True},
                on_raise=ONLYW,
-               ensures=["self.wfile.written.startswith(old(self.wfile.written))"],
                note="only a failing client socket (OSError from wfile.write) may leave handle(): everything else is answered by an error item",
                props=hprops, **FAULT)
     # ---- Gopher+ ------------------------------------------------------------------------------------------
     w.contract(P + "gopherp.py::GopherPlusProtocol.handle", selfclass=GPLUS, globals=GROOT,
                requires=HREQ + ["S.gplus_field_ok(self.gopherpstring)"], modifies=HMOD + ["self.handlemethod"], raises={"OSError": True},
                on_raise=ONLYW,
-               ensures=["self.wfile.written.startswith(old(self.wfile.written))"],
+               at={"after:handler.write(self.wfile)": [
+                   ("assert", "implies(%s, self.wfile.written == old(self.wfile.written) + S.gplus_size_header(self.entry.size) + handler.body)" % NOFAULT),
+                   ("assert", "self.entry.size is None or self.entry.size == len(handler.body)")]},
+               note="C04: a '+' request is answered by '+<size>' CRLF followed by exactly the handler's body, and <size> is the body length or -2",
                props=hprops + ["C15"], **FAULT)
     # ---- HTTP --------------------------------------------------------------------------------------------------
     w.contract(P + "http.py::HTTPProtocol.handle", selfclass=HTTP, globals=GROOT,
@@ -227,10 +230,14 @@ def register2(w):
                init={"requestlist": "[arg.strip() for arg in self.request.split('\\t')]"},
                modifies=HMOD + ["self.requestparts", "self.iconmapping", "self.httpheaders", "self.formvals", "self.rfile.pos", "self.requesthandler.pygopherd_http_slurped"],
                raises={"OSError": True}, on_raise=ONLYW,
-               ensures=["self.wfile.written.startswith(old(self.wfile.written))"],
+               at={"after~Content-Type: {mimetype}": [("ghost", "hdr_end", "self.wfile.written"), ("ghost", "hdr_faults", "len(ghost.wfile_faults)")],
+                   "after~if self.requestparts[0] == 'GET'": [
+                       ("assert", "implies(self.requestparts[0] != 'GET' and len(ghost.wfile_faults) == ghost.hdr_faults, self.wfile.written == ghost.hdr_end)")],
+                   "after~Content-Type: image/gif": [("ghost", "icon_hdr_end", "self.wfile.written")]},
+               note="C04: the header block is complete before the method is looked at, and a HEAD request writes nothing after it",
                opts={"wfile_faults": True, "cfgeval:protocols.http.HTTPProtocol/iconmapping": "dict[str,str]"}, setup=_setup_faults,
                ghost={"log": "log", "conn_headers": "dict[str,str]"},
-               props=hprops + ["C13"])
+               props=["C03", "C04", "C20", "C13"])
     w.contract(P + "http.py::HTTPProtocol.handlerwrite", selfclass=HTTP, params={"wfile": "obj:WFile"},
                requires=["self.handler is not None"], modifies=["wfile.written"], raises={"OSError": True},
                ensures=["wfile.written == old(wfile.written) + self.handler.body"], on_raise={"OSError": ["raised.from_wfile", "wfile.written.startswith(old(wfile.written))"]},
@@ -244,7 +251,6 @@ def register2(w):
         w.contract(P + "%s::%s.handle" % (mod, cls), selfclass=[cls], globals=GROOT,
                    requires=HREQ + extra, modifies=HMOD + ["self.rfile.pos"], raises={"OSError": True}, on_raise=ONLYW,
                    use_lemmas=[("ascii-digit-field", {"req": "self.request", "f": "self.request.strip().split(' ')[2]"})] if cls == "SpartanProtocol" else [],
-                   ensures=["self.wfile.written.startswith(old(self.wfile.written))"],
                    props=hprops, **FAULT)
         w.contract(P + "%s::%s.adjust_mimetype" % (mod, cls), selfclass=[cls], params={"mimetype": "opt[str]"}, modifies=[], raises={}, returns="str",
                    ensures=["result == ('text/plain' if mimetype is None else ('text/gemini' if mimetype == 'application/gopher-menu' else mimetype))",
@@ -257,7 +263,7 @@ def register2(w):
     w.lemma("ascii-digit-field", ["req:str", "f:str"],
             hyp=["req.isascii()", "f in req", "f.isdigit()"], goal=["ascii_digits(f)"], props=["C03", "C20", "C01", "C04"],
             note="a field of an ASCII request line that passes str.isdigit() consists of ASCII digits, so int() of it is exact and cannot raise")
-    w.contract("iface::AnyProtocol.handle", modifies=["ghost.log"], raises={"OSError": True}, assumed=True,
+    w.contract("iface::AnyProtocol.handle", modifies=[], raises={"OSError": True}, assumed=True,
                note="interface: what every protocol's handle() guarantees (BaseGopherProtocol/GopherPlus/HTTP/Gemini/Spartan .handle.raises-only-declared): only OSError escapes",
                props=["C20", "C03"])
     w.contract("pygopherd/server.py::GopherRequestHandler.handle",
@@ -266,5 +272,7 @@ def register2(w):
                modifies=["self.rfile.pos", "ghost.log"], raises={},
                ghost={"log": "log"},
                opts={"getprotocol_iface": True},
-               ensures=["True"],
+               ensures=["len(ghost.log) <= 1",
+                        "implies(len(ghost.log) == 1, ghost.log[0].startswith(self.client_address[0] + ' [AnyProtocol/None] EXCEPTION OSError: '))"],
+               note="nothing raised by the protocol reaches the accept loop; a failure is logged once, with the client's address and under the class of the exception that was caught (AnyProtocol stands for the protocol class name)",
                props=["C20", "C03"])
